@@ -26,7 +26,7 @@ for pid in ids:
         na.append({"property_id": pid, "reason": NOT_YET.get(pid, "check not built yet in this round; no claim is made")})
 man = {
     "version": 1,
-    "setup_cmd": "python3 tools/gen_lean_tables.py && python3 tools/gen_footprints.py >/dev/null && cd lean && ./gen_root.sh && lake build Prs driver",
+    "setup_cmd": "python3 tools/gen_lean_tables.py && python3 tools/gen_footprints.py >/dev/null && python3 tools/gen_formulas.py >/dev/null && python3 tools/gen_loops.py >/dev/null && cd lean && ./gen_root.sh && lake build Prs driver",
     "hooks": {"guard": "ANDIM_PYREPSEQ_VERIF", "enable": "no hooks are compiled into /repo; checks import pyrepseq from /repo's working tree through the editable install",
               "baseline_off_cmd": "cd /repo && /venv/bin/python -m pytest -ra -q -p no:cacheprovider --timeout=900 --continue-on-collection-errors",
               "source_commits": [], "add_only": True},
